@@ -196,7 +196,9 @@ def main():
         bid = '%s/%s' % (r['contract'], o['id'])
         if any(c == r['contract'] for c, _ in confirmed_keys):
             continue        # a failing input for this function was already found and replayed
-        if bid in baseline.get(prop, []) and not o.get('incomplete'):
+        new_call_violating_a_precondition = o['id'].startswith('pre@call.') and prop in baseline and \
+            not any(b.startswith(r['contract'] + '/' + o['id']) for b in baseline.get(prop, []))
+        if (bid in baseline.get(prop, []) or new_call_violating_a_precondition) and not o.get('incomplete'):
             confirmed_keys.add(key)
             violations.append({'contract': r['contract'], 'obligation': o['id'], 'case': r['case'], 'model': o.get('model'),
                                'kind': 'no-failing-input-found', 'solver': o['tried'], 'smt2': o.get('smt2', '')[:4000]})
